@@ -4,9 +4,14 @@
  * offset relative to the page payload (the byte after the PageInfo header).  The allocator triple
  * handed to the pool fills every new block with 0xEE so that page contents are deterministic.
  * Every block handed out is dirtied by the "user" (this shim) with a running non-zero pattern;
- * calloc'ed blocks are first checked to be zero (zero=1). */
+ * calloc'ed blocks are first checked to be zero (zero=1).
+ *
+ * `giant=1` (with phys=quiet): the configured allocator serves requests of 1 GiB and more from
+ * reserved address space (mmap PROT_NONE, only the first 4 KiB -- the PageInfo header -- writable), so
+ * pages and requests beyond 4 GiB cost nothing; the user then never writes and calloc is not available. */
 #include "cc_dynamic_pool.c"
 #include "common.h"
+#include <sys/mman.h>
 
 #define FRESH 0xEE
 #define MAXP 4096
@@ -22,10 +27,47 @@ static int sparse;      /* obs=sparse: used/free are queried only on `observe` *
 static int quiet;       /* phys=quiet: no page dumps (pages of many megabytes) */
 static int libc_pool;   /* built by cc_dynamic_pool_new: pages come from libc and are not pre-filled */
 
-static void *fill_malloc(size_t n) { void *p = conf_malloc(n); if (p) memset(p, FRESH, n); return p; }
-static void *fill_calloc(size_t a, size_t b) { return conf_calloc(a, b); }
+static int giant;       /* giant=1: blocks >= 1 GiB are reservations, nothing in a page payload is ever touched */
+#define GIANT_MIN ((size_t)1 << 30)
+#define MAXG 64
+static struct { void *p; size_t len; } gmap[MAXG]; static size_t ngmap;
 
-static void shim_reset(void) { pool = NULL; nptrs = nshadow = 0; pat_counter = 0; libc_pool = 0; sparse = 0; quiet = 0; }
+static void *fill_malloc(size_t n) {
+    if (giant && n >= GIANT_MIN) {
+        if (refuse_now(n)) return NULL;            /* same accounting as conf_malloc: fail= schedule, > 2^40 absurd */
+        if (ngmap >= MAXG) { fprintf(stderr, "harness: too many giant blocks\n"); exit(3); }
+        size_t len = (n + 4095) & ~(size_t)4095;
+        uint8_t *p = mmap(NULL, len, PROT_NONE, MAP_PRIVATE | MAP_ANONYMOUS | MAP_NORESERVE, -1, 0);
+        if (p == MAP_FAILED || mprotect(p, 4096, PROT_READ | PROT_WRITE)) { fprintf(stderr, "harness: backing allocator exhausted\n"); exit(3); }
+        gmap[ngmap].p = p; gmap[ngmap].len = len; ngmap++;
+        ledger_add(&L_conf, p, n);
+        return p;
+    }
+    void *p = conf_malloc(n); if (p) memset(p, FRESH, n); return p;
+}
+static void *fill_calloc(size_t a, size_t b) { return conf_calloc(a, b); }
+static void fill_free(void *p) {
+    for (size_t g = 0; g < ngmap; g++)
+        if (gmap[g].p == p) {
+            int i = ledger_find(&L_conf, p);
+            if (i >= 0) { L_conf.b[i] = L_conf.b[--L_conf.cnt]; L_conf.frees++; }
+            else { ledger_errors++; snprintf(ledger_msg, sizeof ledger_msg, "conf-free-of-unknown-block"); }
+            munmap(gmap[g].p, gmap[g].len); gmap[g] = gmap[--ngmap];
+            return;
+        }
+    conf_free(p);
+}
+
+static void forget_session(void) { pool = NULL; nptrs = nshadow = 0; pat_counter = 0; libc_pool = 0; sparse = 0; quiet = 0; giant = 0; }
+/* end of a history: reservations that are still live leave the ledger here (the ledger would hand them to free()) */
+static void shim_reset(void) {
+    forget_session();
+    while (ngmap) {
+        int i = ledger_find(&L_conf, gmap[ngmap - 1].p);
+        if (i >= 0) L_conf.b[i] = L_conf.b[--L_conf.cnt];
+        munmap(gmap[ngmap - 1].p, gmap[ngmap - 1].len); ngmap--;
+    }
+}
 
 /* pages oldest first */
 static int page_list(PageInfo **out) {
@@ -115,7 +157,7 @@ static void handed_out(uint8_t *p, size_t n, size_t used_before, size_t pages_be
         return;
     }
     int pat = -1;
-    if (pgi >= 0) {
+    if (pgi >= 0 && !giant) {
         PageInfo *pg[MAXPG]; page_list(pg);
         if (n <= pg[pgi]->size && off <= pg[pgi]->size - n) { pat = (int)(1 + (pat_counter++ % 250)); memset(p, pat, n); }
     }
@@ -125,22 +167,24 @@ static size_t npages(void) { PageInfo *pg[MAXPG]; return (size_t)page_list(pg); 
 
 static void do_op(Cmd *c) {
     if (is_op(c, "new") || is_op(c, "new_default")) {
-        shim_reset();
+        forget_session();
         size_t size = kv_u64(c, "size", 16);
         int sp = !strcmp(kv_str(c, "obs", "full"), "sparse");
         int qt = !strcmp(kv_str(c, "phys", "full"), "quiet");
         enum cc_stat st;
+        giant = is_op(c, "new") && kv_u64(c, "giant", 0); if (giant) qt = 1;
         if (is_op(c, "new")) {
             CC_DynamicPoolConf conf; cc_dynamic_pool_conf_init(&conf);
             conf.is_fixed = kv_u64(c, "fixed", conf.is_fixed);
             conf.is_packed = kv_u64(c, "packed", conf.is_packed);
             conf.alignment_boundary = kv_u64(c, "ab", conf.alignment_boundary);
             if (kv_str(c, "exp", NULL)) conf.exp_factor = strtof(kv_str(c, "exp", "1"), NULL);
-            conf.mem_alloc = fill_malloc; conf.mem_calloc = fill_calloc; conf.mem_free = conf_free;
+            conf.mem_alloc = fill_malloc; conf.mem_calloc = fill_calloc; conf.mem_free = fill_free;
             st = cc_dynamic_pool_new_conf(size, &conf, &pool);
         } else { libc_pool = 1; st = cc_dynamic_pool_new(size, &pool); }
         if (st != CC_OK) pool = NULL;
         first_size = size; sparse = sp; quiet = qt;
+        if (!pool) giant = 0;
         o_stat(st);
     } else if (!pool) { o("st=- nosession"); o_sep(); o("-"); return;
     } else if (is_op(c, "observe")) {
@@ -151,6 +195,8 @@ static void do_op(Cmd *c) {
         o("st=%s", (op_refused && !p) ? "1" : "-"); o_ptr(p);
         if (kv_u64(c, "probe", 0) && p) o(" absalign=%d", (int)((uintptr_t)p % pool->alignment_boundary == 0));
         handed_out(p, n, u, np);
+    } else if (is_op(c, "calloc") && giant) {
+        o("st=- badop");     /* nothing in a giant session is ever written */
     } else if (is_op(c, "calloc")) {
         size_t a = pos_u64(c, 0), b = pos_u64(c, 1), u = priv_used(), np = npages();
         uint8_t *p = cc_dynamic_pool_calloc(a, b, pool);
